@@ -62,3 +62,21 @@ Print Assumptions leaf_op_list_growth.
 Example growth_example :
   exists v nm b, leaf_op true (VList (TUInt 1) [VInt 1; VInt 2; VInt 3]) (br_init [xfc; x07]) = Ok (v, nm, b).
 Proof. vm_compute. eauto. Qed.
+
+(* ... and a dict-field change never adds more than the one member it names *)
+Lemma assoc_set_length {A} k (v : A) : forall l, length (assoc_set k v l) <= S (length l).
+Proof.
+  induction l as [|[k' v'] l IH]; cbn [assoc_set length]; [lia|].
+  destruct (String.eqb k k'); cbn [length]; lia.
+Qed.
+Theorem leaf_op_dict_growth is_slice fs kvs r v nm b :
+  leaf_op is_slice (VDict fs kvs) r = Ok (v, nm, b) ->
+  exists kvs', v = VDict fs kvs' /\ length kvs' <= S (length kvs).
+Proof.
+  unfold leaf_op. destruct is_slice; [discriminate|].
+  destruct (br_get (bits_required (length kvs)) r) as [[i r1]|e]; cbn [bind]; [|discriminate].
+  destruct (nth_error fs (N.to_nat i)) as [[fname ftype]|]; [|discriminate].
+  destruct (decode 1 ftype (br_rest r1)) as [[x rest]|e]; cbn [bind]; [|discriminate].
+  intros H. injection H as <- _ _. eexists. split; [reflexivity|apply assoc_set_length].
+Qed.
+Print Assumptions leaf_op_dict_growth.
